@@ -29,13 +29,13 @@ use zipora::memory::{
 };
 
 const HEADER: &str = r#"From ZV.Common Require Import Base Run.
-From ZV.C07 Require Import Model ModelFive Cases.
+From ZV.C07 Require Import Model ModelFive ModelTL Cases.
 Open Scope N_scope.
 Definition case_t := xcase.
 Definition ok := xok.
 "#;
 
-struct Ctx { sum: Summary, shards: CoqShards, budget: usize, impl_bins: Vec<u64>, out: String, used: HashMap<&'static str, usize>, thorough: bool }
+struct Ctx { sum: Summary, shards: CoqShards, budget: usize, impl_bins: Vec<u64>, tl_classes: Vec<u64>, out: String, used: HashMap<&'static str, usize>, thorough: bool }
 impl Ctx {
     /// per-cell budget of Coq-evaluated cases (quick tier: about 1500 in total)
     fn room(&mut self, key: &'static str, force: bool) -> bool {
@@ -647,15 +647,34 @@ fn run_case(cx: &mut Ctx, c: &Value, force: bool) {
         }
         "threadlocal" => {
             let cell = "ThreadLocalMemoryPool";
-            cx.sum.eval(cell, &key, nontrivial); cx.sum.cell_status(cell, "S-only");
+            cx.sum.eval(cell, &key, nontrivial);
             let mut cfg = match u(c, "preset") { 1 => ThreadLocalPoolConfig::default(), 2 => ThreadLocalPoolConfig::high_performance(), _ => ThreadLocalPoolConfig::compact() };
             if u(c, "arena") != 0 { cfg.arena_size = u(c, "arena") as usize; }
             if u(c, "cached") != 0 { cfg.max_cached_chunks = u(c, "cached") as usize; }
             if u(c, "nosecure") != 0 { cfg.use_secure_memory = false; }
+            let (arena, maxc) = (cfg.arena_size, cfg.max_cached_chunks);
             let pool = match guarded(|| ThreadLocalMemoryPool::new(cfg)) { Ok(Ok(p)) => p, _ => { cx.sum.dist("pool_new_refused"); return; } };
             pool.clear_caches();
             let mut put = TlPut { h: HashMap::new(), pool };
-            drive(cx, cell, c, &mut put, &ops);
+            if let Some(obs) = drive(cx, cell, c, &mut put, &ops) {
+                if cx.room("threadlocal", force) {
+                    // an address is (arena, offset): arenas in order of first appearance, the first block of a new arena is its base
+                    let mut bases: Vec<usize> = vec![];
+                    let mut cops = vec![]; let mut exp = vec![];
+                    for (o, r) in ops.iter().zip(obs.iter()) {
+                        match o[0] {
+                            0 => { cops.push(format!("TA {}", o[1]));
+                                   match r { Some(a) => { let a = *a as usize;
+                                                          let k = match bases.iter().position(|&b| b <= a && a - b < arena) { Some(k) => k, None => { bases.push(a); bases.len() - 1 } };
+                                                          exp.push(format!("Some {}%Z", k)); exp.push(format!("Some {}%Z", a - bases[k])); }
+                                             None => { exp.push("None".to_string()); exp.push("None".to_string()); } } }
+                            1 => { cops.push(format!("TF {}", o[1])); exp.push(coq_oz(r)); }
+                            _ => {}
+                        }
+                    }
+                    cx.shards.push(format!("XTl {} (mkTLC {} {}) [{}] [{}]", coq_n_list(cx.tl_classes.iter().map(|&x| x as u128)), arena, maxc, cops.join("; "), exp.join("; ")), c.clone());
+                }
+            }
         }
         "secure" => {
             let cell = "SecureMemoryPool";
@@ -866,12 +885,13 @@ fn gen_case(r: &mut Rng, which: u64, bins: &[u64]) -> Value {
     }
 }
 
-fn read_impl_bins() -> Vec<u64> {
-    // the one "translator": FAST_BIN_SIZES is private, so it is read from the source under test and compared with the
-    // model's table inside every Coq-evaluated case
+fn read_impl_bins() -> Vec<u64> { read_const_list("src/memory/lockfree_pool.rs", "const FAST_BIN_SIZES") }
+fn read_const_list(file: &str, name: &str) -> Vec<u64> {
+    // the one "translator": the size-class tables are private, so they are read from the source under test and compared
+    // with the model's table inside every Coq-evaluated case
     let repo = std::env::var("ZV_REPO").unwrap_or_else(|_| "/repo".to_string());
-    let src = std::fs::read_to_string(format!("{}/src/memory/lockfree_pool.rs", repo)).unwrap_or_default();
-    let Some(i) = src.find("const FAST_BIN_SIZES") else { return vec![] };
+    let src = std::fs::read_to_string(format!("{}/{}", repo, file)).unwrap_or_default();
+    let Some(i) = src.find(name) else { return vec![] };
     let rest = &src[i..];
     let Some(a) = rest.find("&[") else { return vec![] };
     let Some(b) = rest[a..].find("];") else { return vec![] };
@@ -914,6 +934,7 @@ fn child(args: &Args) {
         shards: CoqShards::new(HEADER, 150),
         budget: if args.thorough { 9000 } else { 1500 },
         impl_bins: read_impl_bins(),
+        tl_classes: read_const_list("src/memory/threadlocal_pool.rs", "const TLS_SIZE_CLASSES"),
         out: args.out.clone(),
         used: HashMap::new(),
         thorough: args.thorough,
